@@ -2080,7 +2080,9 @@ class CParser:
         node = c_ast.Constant("string", tok.value, self._tok_coord(tok))
         while self._peek_type() in _WSTR_LITERAL:
             tok2 = self._advance()
-            node.value = node.value.rstrip()[:-1] + tok2.value[2:]
+            # Drop the encoding prefix (L, u, U or u8) and the opening quote
+            # of the continuation.
+            node.value = node.value.rstrip()[:-1] + tok2.value.split('"', 1)[1]
         return node
 
     # ------------------------------------------------------------------
